@@ -980,9 +980,14 @@ class Interp:
             if isinstance(idx, slice):
                 if idx.step not in (None, 1):
                     raise Unsupported("slice step")
+                mut = isinstance(obj, bytearray) or (isinstance(obj, SBytes) and obj.mutable)
+                lo_, hi_ = idx.start, idx.stop
+                if (lo_ is None or (isinstance(lo_, int) and lo_ >= 0)) and (hi_ is None or (isinstance(hi_, int) and hi_ >= 0)):
+                    # concrete non-negative bounds: seq.extract clips at the end exactly like Python
+                    a_ = lo_ or 0
+                    return SBytes(mk_extract(t, a_, (n - a_) if hi_ is None else z3.IntVal(max(hi_ - a_, 0))), mutable=mut)
                 start, stop = self.slice_bounds(idx.start, idx.stop, n)
                 ln = z3.If(stop > start, stop - start, z3.IntVal(0))
-                mut = isinstance(obj, bytearray) or (isinstance(obj, SBytes) and obj.mutable)
                 return SBytes(z3.simplify(z3.SubSeq(t, start, ln)), mutable=mut)
             i = self.norm_index(idx, n)
             ok = z3.And(i >= 0, i < n)
@@ -1767,6 +1772,26 @@ class Interp:
         from . import withs
 
         return withs.exec_with(self, node, env, is_async=True)
+
+
+def mk_extract(t, off, ln):
+    """seq.extract(t, off, ln) for a concrete offset >= 0; a slice of a slice-to-end is flattened so that
+    x[3:][2:] and x[5:] are the same term."""
+    t = z3.simplify(t)
+    if z3.is_app(t) and t.decl().kind() == z3.Z3_OP_SEQ_EXTRACT:
+        base, off0, ln0 = t.arg(0), z3.simplify(t.arg(1)), z3.simplify(t.arg(2))
+        to_end = z3.simplify(ln0 == z3.Length(base) - off0)
+        if z3.is_int_value(off0) and z3.is_true(to_end):
+            o = off0.as_long() + off
+            if isinstance(ln, int):
+                ln = z3.IntVal(ln)
+            new_ln = z3.simplify(z3.substitute(ln, (z3.Length(t), z3.Length(base) - off0)))
+            # length of the inner slice is max(len(base) - off0, 0); for the outer extract the clipping at the
+            # end of `base` is the same clipping
+            return z3.simplify(z3.SubSeq(base, z3.IntVal(o), new_ln))
+    if isinstance(ln, int):
+        ln = z3.IntVal(ln)
+    return z3.simplify(z3.SubSeq(t, z3.IntVal(off), ln))
 
 
 _TABLES = {}
